@@ -1,7 +1,7 @@
 (* C19Run.v — executable verdicts for C19.  The four analyses are compared between their two entry-point families by
    the harness (projection named by the property); the redirect chain reported by the crate is compared with the loop
    model of RIO.Analyses run on the one-hop table (obtained from the crate itself with max_hops = 1). *)
-Require Import RIO.Base RIO.Analyses RIO.Headers RIO.BodyText RIO.ActionModel RIO.Pipeline RIO.C05Run.
+Require Import RIO.Base RIO.Analyses RIO.Headers RIO.BodyText RIO.ActionModel RIO.Pipeline RIO.C05Run RIO.UnitTrace RIO.C19UnitsRun.
 Open Scope N_scope.
 
 (* one response reported by an analysis (explain for the example of the case, impact for each example of the analysed
@@ -26,6 +26,7 @@ Record case19 := {
   k_impact_same : bool;     (* ImpactOutput *)
   k_pipeline_same : bool;   (* response reported by explain = the live pipeline replayed by the harness on a rebuilt router *)
   k_pipes : list pipe19;    (* the reported responses with the matched rules, for the pipeline model *)
+  k_upipes : list upipe19;  (* the reported unit traces with the matched rules and their unit fields (RIO.C19UnitsRun) *)
   k_has_chain : bool;
   k_max : N;                (* max_hops *)
   k_table : list (N * option (N * N) * bool * bool);   (* node, one hop (target, status), target outside the project domains, self loop *)
@@ -70,7 +71,7 @@ Definition chain_ok (c : case19) : bool :=
 
 Definition verdict19 (table : list (str * hkind)) (skeleton : str) (c : case19) : N :=
   (vbit ((negb (k_has_chain c) || (let '(h, e) := model_chain c in hops_eqb h (o_hops c) && N.eqb (err_code e) (o_err c)))
-         && forallb (pipe_ok table skeleton) (k_pipes c)) 1
+         && forallb (pipe_ok table skeleton) (k_pipes c) && forallb (unit_trace_ok table skeleton) (k_upipes c)) 1
    + vbit (k_tests_same c && k_units_same c && k_explain_same c && k_impact_same c && k_pipeline_same c && (negb (k_has_chain c) || chain_ok c)) 4)%N.
 
 Definition spec_verdict19 (c : case19) : N :=
